@@ -380,14 +380,15 @@ class DAGRunConcurrentManager(DAGRunManagerLike):
 
         node = self.dag.node_map[node_id]
 
+        if force_default:
+            # The default value is not an attempt of the node: it is neither retried nor replaced by itself
+            return run_node_default(node, **kwargs)
+
         retry_policy = NodeRetryPolicy(node=node)
 
         n_attempts = 1
         while True:
             try:
-                if force_default:
-                    return run_node_default(node, **kwargs)
-
                 logger.debug('Start execution node_id=%s', node_id)
                 result = await run_node(**kwargs, node=node, node_id=node_id)
 
